@@ -145,6 +145,7 @@ struct RT {
     long soloAt = -1;     // Pol::Solo: step at which one thread starts to run alone
     int soloT = -1;       // that thread while it runs alone (-1: not in solo phase)
     bool soloDone = false;
+    int soloHelp = 0;     // help=1: library steps other threads were allowed while the lone thread waited for their lock
 };
 inline RT* g_rt = nullptr;
 inline thread_local Thr* t_cur = nullptr;
@@ -274,6 +275,32 @@ struct Cand {
     bool weak;
 };
 
+// Pol::Solo with parameter help=1: index in c of a thread other than the lone one that holds a library mutex and whose next
+// step is a synchronisation step of the library itself (not user code: payload windows, markers, functor copies), or -1
+struct RT;
+inline bool internal_kind(const char* k)
+{
+    static const char* ks[] = {"mlock", "munlock", "mtry", "mtimed", "slock", "sunlock", "stry", "stimed", "ald", "ast", "arm", "cas",
+                               "pu", "cvwait", "cvwake", "notify", "yield"};
+    for (auto x : ks)
+        if (std::strcmp(x, k) == 0) return true;
+    return false;
+}
+template<class RTT>
+inline int solo_helper(RTT& R, const std::vector<Cand>& c)
+{
+    auto it = R.cfg.params.find("help");
+    if (it == R.cfg.params.end() || it->second == 0 || R.soloHelp >= 200) return -1;
+    for (size_t i = 0; i < c.size(); ++i) {
+        const Cand& x = c[i];
+        if (x.t->id == R.soloT || x.weak || x.t->heldNames.empty() || !x.t->pend) continue;
+        if (!internal_kind(x.t->pend->kind)) continue;
+        R.soloHelp++;
+        return (int)i;
+    }
+    return -1;
+}
+
 inline void collect(std::vector<Cand>& out)
 {
     for (auto& up : g_rt->thr) {
@@ -371,9 +398,14 @@ inline Cand choose()
             for (auto& x : c)
                 if (x.t->id == R.soloT && !x.weak) d.push_back(x);
             Thr* st = R.thr[(size_t)R.soloT].get();
+            int hi = -1;
             if (st->state == 2) {
                 R.soloT = -1;
                 R.soloDone = true;
+            } else if (d.empty() && (hi = solo_helper(R, c)) >= 0) {
+                // help=1: the lone thread waits for a lock whose holder is inside library code (no user code runs under that
+                // lock): let the holder take its next library step - a bounded internal critical section is not "blocking"
+                return c[(size_t)hi];
             } else if (d.empty()) {
                 Ev e;
                 e.t = R.soloT;
